@@ -43,6 +43,7 @@ pub struct Info {
     pub discarded: usize,
     pub spent_outputs: usize,
     pub base_accepted: bool,
+    pub offchain_judged: bool,
     pub nontrivial: Vec<(TxEdit, &'static str)>,
 }
 
@@ -136,7 +137,26 @@ pub fn run_case(case: &Case) -> (Vec<(String, String)>, Info) {
     let ts = pts + 2 * case.hist.ncfg.heartbeat + 50;
     let for_block = tip_id + 1;
     let (spent, expired) = spent_and_expired(&node, for_block);
-    let edits: Vec<TxEdit> = if case.edits.is_empty() { TX_EDITS.to_vec() } else { case.edits.clone() };
+    let edits: Vec<TxEdit> = if case.edits.is_empty() {
+        let mut e = TX_EDITS.to_vec();
+        e.push(TxEdit::OffChainInput);
+        e
+    } else {
+        case.edits.clone()
+    };
+    // outputs created only on abandoned branches: in a block the node accepted that is not on the
+    // path of its tip, and not (by coordinates, owner and amount) an output of the path itself
+    let on_path: BTreeSet<SaitoHash> = path.iter().map(|b| b.hash).collect();
+    let offchain: Vec<saito_core::core::consensus::slip::Slip> = built
+        .blocks
+        .iter()
+        .filter(|b| !on_path.contains(&b.hash) && node.chain.blocks.contains_key(&b.hash))
+        .flat_map(|b| b.transactions.iter())
+        .filter(|t| t.transaction_type == TransactionType::Normal)
+        .flat_map(|t| t.to.iter())
+        .filter(|s| s.amount > 0 && !ledger.utxo.contains_key(&ukey_of_slip(s)))
+        .cloned()
+        .collect();
     let creator = key(case.attacker);
     let max_id = tip_id + 2;
 
@@ -149,6 +169,7 @@ pub fn run_case(case: &Case) -> (Vec<(String, String)>, Info) {
             ts,
             spent: &spent,
             expired: &expired,
+            offchain: &offchain,
         };
         let bad = match edited_tx(e, &ctx) {
             Some(t) => t,
@@ -163,6 +184,9 @@ pub fn run_case(case: &Case) -> (Vec<(String, String)>, Info) {
         if !privileged && issues.is_empty() {
             info.discarded += 1;
             continue;
+        }
+        if e == TxEdit::OffChainInput {
+            info.offchain_judged = true;
         }
         let why: String = if privileged { "privileged_type".into() } else { issues.iter().map(|i| i.kind()).collect::<BTreeSet<_>>().into_iter().collect::<Vec<_>>().join("+") };
 
@@ -317,6 +341,9 @@ fn eval(c: &mut Ctx, case: &Case, counting: bool) -> Vec<(String, String)> {
         }
         if info.base_accepted {
             c.class("honest_spend_accepted");
+        }
+        if info.offchain_judged {
+            c.class("spend_of_abandoned_branch_output_judged");
         }
         if info.spent_outputs >= 1 {
             let pos = case.fillers.min(3);
